@@ -4,6 +4,7 @@ Property theorems only; model in `Model/C02.lean`, stage lemmas in `Lemmas/C02.l
 -/
 import NotationModel.Lemmas.C02
 import NotationModel.Generated.SrcLevels
+import NotationModel.Generated.SrcVerifier
 set_option linter.unusedSimpArgs false
 set_option linter.unusedVariables false
 set_option maxRecDepth 4000
@@ -688,6 +689,12 @@ theorem source_GetVerificationLevel_refines_model (sv : SignatureVerification) :
           cases hf : GoLite.foldE (fun t kv => applyOverride (Except.ok t) kv) sv.Override b.Enforcement with
           | ok t' => simp [shape, ofModel, GoLite.idPure, absSt]
           | error p => obtain ⟨t', e⟩ := p; simp [shape, ofModel, GoLite.idPure, stopSt]
+
+/-- TIE (translated source): `verifier.isCriticalFailure` is the model's `isCritical` -/
+theorem source_isCriticalFailure_refines_model (r : «notation».ValidationResult) :
+    verifier.isCriticalFailure r = isCritical { type := r.«Type», action := r.Action, failed := r.Error.isSome } := by
+  simp [verifier.isCriticalFailure, isCritical, Id.run, GoLite.idPure]
+  rfl
 
 /-- non-vacuity: the translated function on a customised level -/
 example : (GetVerificationLevel { VerificationLevel := "strict", Override := [("revocation", "skip")] }).1.map (·.Enforcement) =
